@@ -33,7 +33,7 @@ def char_param(name, strings, width=None, desc='', locked=False, dims_tail=None)
     for x in strings: vals += padded(x, width)
     return Param(name, -1, [width] + (dims_tail if dims_tail is not None else [len(strings)]), vals, desc, locked)
 
-def make_content(S, P=2, C=1, sub=2, F=2, labels='equal', analog='full', extras=(), first=1, events=0, label_len=4, gid_map=None, symbolic_meta=True, desc_len=2, reserved=False, fixed_plabels=None, fixed_alabels=None, units_per_point=False, concrete_data=False):
+def make_content(S, P=2, C=1, sub=2, F=2, labels='equal', analog='full', extras=(), first=1, events=0, label_len=4, gid_map=None, symbolic_meta=True, desc_len=2, reserved=False, fixed_plabels=None, fixed_alabels=None, units_per_point=False, concrete_data=False, analog_lists='equal'):
     """S: Syms.  Returns Content whose payload is symbolic."""
     c = Content()
     c.nb_points = P; c.nb_channels = C; c.sub = sub if C else (sub if analog == 'full' else 0)
@@ -66,9 +66,9 @@ def make_content(S, P=2, C=1, sub=2, F=2, labels='equal', analog='full', extras=
             char_param('LABELS', alabels, label_len),
             char_param('DESCRIPTIONS', [S.text('ad', 2, 1 if symbolic_meta else 0) for _ in range(C)], 2),
             Param('GEN_SCALE', 4, [], [S.f32('gs')], [], False),
-            Param('SCALE', 4, [C], [S.f32('as') for _ in range(C)], [], False),
+            Param('SCALE', 4, [C], [S.f32('as') for _ in range(C)], [], False) if analog_lists == 'equal' else Param('SCALE', 4, [C + 1], [S.f32('as') for _ in range(C + 1)], [], False),
             Param('OFFSET', 2, [C], [S.bv('ao', 16) for _ in range(C)], [], False),
-            char_param('UNITS', [S.text('au', 1) for _ in range(C)], 4),
+            char_param('UNITS', [S.text('au', 1) for _ in range(C)] if analog_lists == 'equal' else [], 4),
             Param('RATE', 4, [], [F32(100.0 * (sub if sub else 1))], [], True),
         ])
     else:
